@@ -52,6 +52,9 @@ type Env struct {
 	// BuildCalls counts provider builds (the first one per lifetime is construction)
 	// RealConstructor: build the controller with the real NewController instead of the mirroring hook
 	RealConstructor bool
+	// InformerProbe, when set, sees a controller built by the real NewController while it still uses its own
+	// informer-backed listers (before they are replaced by the harness' snapshot listers)
+	InformerProbe func(ctl *controller.Controller)
 	BuildCalls int
 	podSeq     map[int]int
 	// GCLag: a Node whose instance is gone survives this many reconciles (0 = collected at once)
@@ -175,6 +178,9 @@ func (e *Env) Start() error {
 		close(informerStop)
 		if err != nil {
 			return err
+		}
+		if e.InformerProbe != nil {
+			e.InformerProbe(ctl)
 		}
 		ctl.VerifUseListers(e.K.PodLister(), e.K.NodeLister())
 	} else {
